@@ -132,6 +132,19 @@ def run(tier):
         st += [{"op": "getall", "k": 8}, {"op": "compact"}, {"op": "getall", "k": 8}, {"op": "close"}, dbgen.open_step(1, 1 << 30, 1000), {"op": "getall", "k": 8}, {"op": "close"}]
         batches.append(("afterreopen-%d" % bi, [st], False))
 
+    # the handle of the next session is created (NewSimpleDB) while the previous session is still open, and opened after its Close: whatever the
+    # constructor looks at is older than the tables the Close flushes
+    ub = dbgen.Uniq("p")
+    for bi in range(2):
+        st = [dbgen.open_step(2, 1 << 30, 1000, mem=1 << 30)]
+        for sess in range(3):
+            st += [{"op": "put", "k": k, "v": ub.next(), "pad": 5} for k in range(4)] + ([{"op": "rotate"}, {"op": "barrier"}] if (sess + bi) % 2 else [])
+            st += [{"op": "del", "k": sess}, {"op": "getall", "k": 5}]
+            nxt = dbgen.open_step(2, 1 << 30, 1000, mem=1 << 30)
+            st += [dict(nxt, op="prenew"), {"op": "close"}, dict(nxt, usepre=True), {"op": "getall", "k": 5}]
+        st += [{"op": "close"}]
+        batches.append(("prenew-%d" % bi, [st], False))
+
     # impl -> spec: long programs
     nlong = 24 if thorough else 6
     for i in range(nlong):
